@@ -64,6 +64,9 @@ func c19WriteBody(x *engine.X) {
 			return n
 		}
 	}
+	// asynchronous writes meet the same transport: one attempt takes 1 byte / all but one; an AsyncWriteAll goes on,
+	// a plain AsyncWrite would report the short count as its result
+	vs.AsyncAccept = vs.Accept
 	// a non-blocking transport that takes part of an item and then reports would-block: the call fails, the rest of
 	// the item stays queued, and after the transport drained the next call must send it exactly once
 	blockAfter := -1
@@ -109,7 +112,7 @@ func c19WriteBody(x *engine.X) {
 			if async {
 				calls := 0
 				cc.AsyncWriteNext(it, func(e error, m int) { calls++; err, n = e, m })
-				for k := 0; k < 8 && vs.StepWrite(); k++ {
+				for k := 0; k < 20000 && vs.StepWrite(); k++ {
 				}
 				if calls != 1 {
 					x.Fail("codecconn.AsyncWriteNext/callbacks", "item %d: callback ran %d times", i, calls)
